@@ -475,7 +475,10 @@ def deletions(parts):
     """all single deletions of a mandatory delimiter (DESIGN 6.3, C14):
     -> [(text, expected offset or None, token type, error kind, offset of the deletion point)]
     Instances in which the deletion makes neighbouring lexemes fuse, or leaves the same
-    delimiter character as the next significant character, are not instances of the property."""
+    delimiter character as the next significant character, are not instances of the property.
+    Besides the plain deletion, the delimiter is also replaced, at the position where it is expected, by a
+    non-ASCII letter whose code point ends in the delimiter's ASCII code (U+04xx, U+4Exx): what follows the
+    gap is then a character that is not the delimiter but shares its low byte."""
     out = []
     CH = {"ASSIGN": "=", "LPAREN": "(", "COMMA": ",", "FSLASH": "/", "SEMI": ";"}
     GAP = r"(\s|/\*.*?\*/)*"
@@ -485,21 +488,26 @@ def deletions(parts):
         before = "".join(x for x, _ in parts[:i])
         after = "".join(x for x, _ in parts[i + 1:])
         m = re.match(GAP, after, re.S)
-        nxt = after[m.end():]
-        if nxt[:1] == CH[tag[1]]:
-            continue
-        if tag[1] == "SEMI" and nxt == "":
-            continue   # end-of-input semicolon: virtual without error, excluded by the property
-        k = trailing_gap_start(before)
-        lastc = before[:k][-1:]
-        between = before[k:] + after[: m.end()]
-        ws_between = bool(re.search(r"\s", re.sub(r"/\*.*?\*/", "", between, flags=re.S)))
-        if not ws_between and re.match(r"[\w.&%]", lastc or " ") and re.match(r"[\w.&%'\"]", nxt[:1] or " "):
-            continue   # lexical fusion (comments alone do not separate name parts)
-        if tag[1] == "FSLASH" and nxt[:1] == "*":
-            continue
-        off = len(before.encode("utf-8")) + len(after[: m.end()].encode("utf-8"))
-        if tag[1] == "COMMA":
-            off = None  # the value argument extends to the next top-level delimiter: position not fixed by the grammar
-        out.append((before + after, off, tag[1], tag[2], len(before.encode("utf-8"))))
+        d = CH[tag[1]]
+        subs = [""]
+        if (len(before) + i) % 3 == 0:
+            subs += [chr(0x0400 + ord(d)), chr(0x4E00 + ord(d))]
+        for sub in subs:
+            nxt = sub + after[m.end():]
+            if nxt[:1] == d:
+                continue
+            if tag[1] == "SEMI" and nxt == "":
+                continue   # end-of-input semicolon: virtual without error, excluded by the property
+            k = trailing_gap_start(before)
+            lastc = before[:k][-1:]
+            between = before[k:] + after[: m.end()]
+            ws_between = bool(re.search(r"\s", re.sub(r"/\*.*?\*/", "", between, flags=re.S)))
+            if not ws_between and re.match(r"[\w.&%]", lastc or " ") and re.match(r"[\w.&%'\"]", nxt[:1] or " "):
+                continue   # lexical fusion (comments alone do not separate name parts)
+            if tag[1] == "FSLASH" and nxt[:1] == "*":
+                continue
+            off = len(before.encode("utf-8")) + len(after[: m.end()].encode("utf-8"))
+            if tag[1] == "COMMA":
+                off = None  # the value argument extends to the next top-level delimiter: position not fixed by the grammar
+            out.append((before + after[: m.end()] + nxt, off, tag[1], tag[2], len(before.encode("utf-8"))))
     return out
